@@ -231,7 +231,7 @@ class Check:
         return True
 
     def write_replay(self, replay):
-        d = os.path.join(VERIF, "replays", self.pid)
+        d = os.path.join(VERIF, "replays", self.pid) if REPO == "/repo" else os.path.join(tempfile.gettempdir(), "verif-replays", self.pid)
         os.makedirs(d, exist_ok=True)
         blob = json.dumps(replay, sort_keys=True)
         p = os.path.join(d, hashlib.sha1(blob.encode()).hexdigest()[:12] + ".json")
@@ -258,8 +258,11 @@ class Check:
             "coverage": cov, "assumptions": self.assumptions,
             "wall_s": round(time.time() - self.t0, 2), "violations": len(self.violations),
         }
-        os.makedirs(os.path.join(VERIF, "evidence"), exist_ok=True)
-        with open(os.path.join(VERIF, "evidence", self.pid + ".json"), "w") as f:
+        evdir = os.path.join(VERIF, "evidence")
+        if os.environ.get("VERIF_NO_EVIDENCE") or REPO != "/repo":
+            evdir = self.work          # a run against another tree (seeded change) must not overwrite the evidence of /repo
+        os.makedirs(evdir, exist_ok=True)
+        with open(os.path.join(evdir, self.pid + ".json"), "w") as f:
             json.dump(ev, f, indent=1)
         for fid, (cnt, ex, f) in sorted(self.known_hits.items()):
             print("KNOWN-FINDING: property=%s %s: %s (%d case(s) in this run, e.g. %s)" %
